@@ -81,10 +81,18 @@ type c16Op struct {
 	Fate string `json:"fate,omitempty"`
 	// Waited: the publisher waited the full 20 s for an answer and got none.
 	Waited bool `json:"waited,omitempty"`
+	// Route (cluster histories only): which broker's API the publish went
+	// through - leader / follower / nonreplica of the partition, or "nats" for
+	// a raw envelope.
+	Route string `json:"route,omitempty"`
 }
 
 func (o *c16Op) String() string {
-	s := fmt.Sprintf("#%d p%d %s %s %s/%s e=%d [%d,%d] -> %s", o.ID, o.Pub, o.Phase, o.Via, o.Policy, o.Class, o.E, o.Call, o.Ret, o.Out)
+	via := o.Via
+	if o.Route != "" {
+		via += "@" + o.Route
+	}
+	s := fmt.Sprintf("#%d p%d %s %s %s/%s e=%d [%d,%d] -> %s", o.ID, o.Pub, o.Phase, via, o.Policy, o.Class, o.E, o.Call, o.Ret, o.Out)
 	if o.Out == c16OutOK || o.Fate == "stored" {
 		s += fmt.Sprintf("@%d", o.Off)
 	}
@@ -136,6 +144,12 @@ type c16Hist struct {
 	amu  sync.Mutex
 	sent map[string][]c16Sent // correlation id -> acks the partition sent (hook ack.send)
 
+	// cluster histories (c16_cluster_test.go): the broker whose API a publisher
+	// talks to and the role of that broker for the partition.  Written before
+	// the publishers start.
+	pubSrv   map[int]*Server
+	pubRoute map[int]string
+
 	failed  atomic.Bool
 	inconc  atomic.Bool
 	aborted atomic.Bool
@@ -146,10 +160,18 @@ type c16Hist struct {
 
 func (h *c16Hist) now() int64 { return int64(time.Since(h.base)) }
 
+// srvFor returns the broker publisher pub talks to.
+func (h *c16Hist) srvFor(pub int) *Server {
+	if s := h.pubSrv[pub]; s != nil {
+		return s
+	}
+	return h.srv
+}
+
 func (h *c16Hist) newOp(pub int, phase, via, class string, policy client.AckPolicy, e int64) *c16Op {
 	h.mu.Lock()
 	defer h.mu.Unlock()
-	op := &c16Op{ID: len(h.ops), Pub: pub, Phase: phase, Via: via, Class: class, Policy: policy.String(), E: e, Off: -1}
+	op := &c16Op{ID: len(h.ops), Pub: pub, Phase: phase, Via: via, Class: class, Policy: policy.String(), E: e, Off: -1, Route: h.pubRoute[pub]}
 	op.Tag = fmt.Sprintf("%s-%04d", h.stream, op.ID)
 	h.ops = append(h.ops, op)
 	return op
@@ -223,6 +245,10 @@ const c16MaxUnanswered = 6
 // make it), "nowait" (no deadline: fire and forget), "none" (ack policy NONE:
 // must be refused).
 func (h *c16Hist) viaAPI(op *c16Op, policy client.AckPolicy, kind string, short time.Duration) {
+	h.viaAPIOn(h.srvFor(op.Pub), op, policy, kind, short)
+}
+
+func (h *c16Hist) viaAPIOn(srv *Server, op *c16Op, policy client.AckPolicy, kind string, short time.Duration) {
 	ctx := context.Background()
 	cancel := func() {}
 	switch kind {
@@ -236,7 +262,7 @@ func (h *c16Hist) viaAPI(op *c16Op, policy client.AckPolicy, kind string, short 
 	req := &client.PublishRequest{Stream: h.stream, Value: []byte(op.Tag), Key: []byte("k"), AckPolicy: policy,
 		CorrelationId: op.Tag, ExpectedOffset: op.E}
 	op.Call = h.now()
-	resp, err := h.srv.api.Publish(ctx, req)
+	resp, err := srv.api.Publish(ctx, req)
 	op.Ret = h.now()
 	if err != nil {
 		msg := err.Error()
@@ -308,10 +334,12 @@ func (s *c16Async) Context() context.Context     { return s.ctx }
 func (s *c16Async) SendMsg(m any) error          { return nil }
 func (s *c16Async) RecvMsg(m any) error          { return io.EOF }
 
-func (h *c16Hist) newAsync() *c16Async {
+func (h *c16Hist) newAsync() *c16Async { return h.newAsyncOn(h.srv) }
+
+func (h *c16Hist) newAsyncOn(srv *Server) *c16Async {
 	ctx, cancel := context.WithCancel(context.Background())
 	s := &c16Async{ctx: ctx, cancel: cancel, reqs: make(chan *client.PublishRequest), wait: map[string]chan *client.PublishResponse{}, done: make(chan error, 1)}
-	go func() { s.done <- h.srv.api.PublishAsync(s) }()
+	go func() { s.done <- srv.api.PublishAsync(s) }()
 	return s
 }
 
@@ -518,7 +546,7 @@ func (h *c16Hist) publisher(pub int, kind string, nops int, rng *kit.RNG, raw *c
 	var mine int64 = h.hint.Load()
 	var as *c16Async
 	if kind == "async" {
-		as = h.newAsync()
+		as = h.newAsyncOn(h.srvFor(pub))
 		defer as.close()
 	}
 	one := func(phase, class string, policy client.AckPolicy, special string) {
@@ -906,6 +934,16 @@ func c16RunHistory(rep *kit.Report, c *vfCluster, srv *Server, cfgDesc string, s
 	}
 	close(start)
 	wg.Wait()
+	h.conclude(raws, kinds, idx, "")
+}
+
+// conclude closes a history after its publishers have finished: open
+// operations are decided, the final log of the partition (h.part: on a cluster
+// the partition leader's) is scanned, the acks seen at the hook are compared
+// and the client-boundary history is checked for linearizability.  label
+// prefixes the counters of the cluster unit.
+func (h *c16Hist) conclude(raws []*c16Raw, kinds []string, idx int, label string) {
+	rep, cfgDesc, mode, srv := h.rep, h.cfgDesc, h.mode, h.srv
 	end := h.now()
 	rep.Eval()
 	// A history that was cut short or whose fences were not answered is
@@ -1009,7 +1047,7 @@ func c16RunHistory(rep *kit.Report, c *vfCluster, srv *Server, cfgDesc string, s
 		rep.Nontrivial(fmt.Sprintf("porc-only|%s|%d", cfgDesc, idx))
 	}
 	if st.contestedWon > 0 && st.equalLost > 0 && st.classes["any/ok"] > 0 && st.classes["stale/rejected"]+st.classes["zero/rejected"] > 0 && st.classes["future/rejected"] > 0 {
-		rep.Nontrivial(fmt.Sprintf("%s|%s|n=%d|%s|ok=%d|rej=%d|open=%d|contested=%d|segs=%d", cfgDesc, mode, h.n, h.profile.Name, st.ok, st.rejected, st.open, st.contested, segs))
+		rep.Nontrivial(fmt.Sprintf(label+"%s|%s|n=%d|%s|ok=%d|rej=%d|open=%d|contested=%d|segs=%d", cfgDesc, mode, h.n, h.profile.Name, st.ok, st.rejected, st.open, st.contested, segs))
 	}
 	if idx%7 == 0 {
 		rep.Sample(map[string]any{"server_config": cfgDesc, "ack_mode": mode, "publishers": h.n, "kinds": kinds, "profile": h.profile.Name, "sequential_prefix": h.seqLen,
